@@ -34,6 +34,9 @@ META = {
         "min <= result <= max of the cell's valid values are demanded; weights are non-negative (one input in four keeps rows of weight 0; a cell whose valid rows all weigh 0 has no reading and is not compared)",
         "scalar weights for stddev/covariance and weights for corrcoef are outside the quantifier and not generated"],
 }
+META["rule"] += '; round 7: weighted covariance with rows of weight exactly 0, preferably rows with a missing fact value (missing rule judged over all rows of the cell; cells with fewer than two rows of positive weight are undefined, cells whose weights sum to zero outside the quantifier)'
+for _t in META["require"]:
+    META["require"][_t] = list(META["require"][_t]) + ['class:covariance_with_rows_of_weight_zero']
 
 
 def shards(tier):
